@@ -56,8 +56,27 @@ def oracle_c01(c):
     pr += [p for p in orc.check_conforms(c.b.model, c.doc, c.op, c.variables, c.real["data"]) if p.startswith("keys ")]
     return pr
 
+def returned_exception_paths(c):
+    """response paths at which a resolver RETURNED an exception instance (as its value, or as an item of the list /
+    nested list it returned): each is a field failure and must be reported with exactly that path"""
+    out = []
+    def walk(v, path):
+        if isinstance(v, dict) and "x" in v and "m" in v: out.append(path)
+        elif isinstance(v, list):
+            for i, x in enumerate(v): walk(x, path + [i])
+    for call in c.real["calls"]:
+        spec = (c.renv.get("resolvers") or {}).get(call["coord"])
+        if spec and spec.get("k") == "const": walk(spec["v"], list(call["path"]))
+    return out
+
 def oracle_c02(c):
     pr = orc.check_errors(c.doc, c.real["data"], c.real["errors"], c.real["raw"].get("errors") or [])
+    reported = [e.get("path") for e in c.real["errors"]]
+    for p in returned_exception_paths(c):
+        # (a failing ancestor may hide it; only required when the execution algorithm itself reports that path)
+        algo = [e.get("path") for e in (c.mod or {}).get("errors", [])] if c.mod and "fail" not in c.mod else None
+        if p not in reported and (algo is None or p in algo):
+            pr.append(f"a resolver returned an exception instance at {p}: no error with that path is reported")
     pr += [p for p in orc.check_conforms(c.b.model, c.doc, c.op, c.variables, c.real["data"]) if p.startswith("null at non-null")]
     if c.real["warnings"]: pr.append("asyncio warning: " + c.real["warnings"][0])
     return pr
